@@ -21,7 +21,10 @@ import (
 )
 
 type vfC02Probe struct {
-	Label     string // endpoint + flag set (the unit of the non-trivial count)
+	Label     string   // endpoint + the flags that select a code path (the unit of the non-trivial count)
+	Minor     []string // further flags, counted one by one
+	Listing   bool     // nothing is named by the requester: every document is in scope
+	world     []*vfC02Doc
 	Method    string
 	Path      string
 	Body      string
@@ -199,6 +202,11 @@ func (p *vfC02Probe) misKeyed(u *vfC02User) bool {
 		return forbidden && allowed
 	}
 	docs := []*vfC02Doc{}
+	if p.Listing {
+		for _, d := range docs0(p) {
+			docs = append(docs, d)
+		}
+	}
 	if p.TargetDoc != nil {
 		docs = append(docs, p.TargetDoc)
 	}
@@ -225,6 +233,8 @@ func (p *vfC02Probe) misKeyed(u *vfC02User) bool {
 	}
 	return false
 }
+
+func docs0(p *vfC02Probe) []*vfC02Doc { return p.world }
 
 // ---------------------------------------------------------------------------------------------
 // probe generation
@@ -285,13 +295,26 @@ func vfC02Flag(rt *rapid.T, q url.Values, labels *[]string, name string) bool {
 	return false
 }
 
+// vfC02MinorFlags are request options that do not select a different authorisation path; they are
+// counted one by one instead of multiplying the label space.
+var vfC02MinorFlags = map[string]bool{"show_exp": true, "show_cv": true, "revs_from": true, "atts_since": true, "update_seq": true, "access": true, "meta": true, "version_type=cv": true, "channels": true}
+
 func vfC02Finish(p *vfC02Probe, base string, q url.Values, labels []string) *vfC02Probe {
 	p.Path = base
 	if len(q) > 0 {
 		p.Path += "?" + q.Encode()
 	}
-	sort.Strings(labels[1:])
-	p.Label = strings.Join(labels, " ")
+	core := []string{labels[0]}
+	rest := append([]string{}, labels[1:]...)
+	sort.Strings(rest)
+	for _, l := range rest {
+		if vfC02MinorFlags[l] {
+			p.Minor = append(p.Minor, l)
+		} else {
+			core = append(core, l)
+		}
+	}
+	p.Label = strings.Join(core, " ")
 	return p
 }
 
@@ -428,6 +451,7 @@ func (w *vfC02World) genAllDocs(rt *rapid.T) *vfC02Probe {
 	if rapid.IntRange(0, 3).Draw(rt, "gzip") == 0 {
 		p.Hdr["Accept-Encoding"] = "gzip"
 	}
+	p.Listing = len(p.Named) == 0
 	return vfC02Finish(p, "/"+w.ks+"/_all_docs", q, labels)
 }
 
@@ -490,6 +514,7 @@ func (w *vfC02World) genChanges(rt *rapid.T) *vfC02Probe {
 	if rapid.IntRange(0, 3).Draw(rt, "gzip") == 0 {
 		p.Hdr["Accept-Encoding"] = "gzip"
 	}
+	p.Listing = true
 	return vfC02Finish(p, "/"+w.ks+"/_changes", q, labels)
 }
 
@@ -588,6 +613,7 @@ func (w *vfC02World) systematic() []*vfC02Probe {
 		for _, d := range named {
 			p.Named[d] = true
 		}
+		p.Listing = len(named) == 0
 		out = append(out, p)
 	}
 	for _, d := range w.docs {
